@@ -310,6 +310,24 @@ def run_node(pid, tier, seed):
                    "distinct_nontrivial = distinct pre-states (full node dumps)",
            "samples": samples[:4], "distribution": dist, "traces_validated_against_impl": total}
     broken = broken or skeleton_drift()
+    if pid == "C01":
+        # the candidate counts a reply for the round in which it reads it: replies must be paired with requests by the pool
+        pwd = vlib.workdir(pid + "_pool")
+        rc, pout = vlib.vh(["raft", "pool", seed, 6 if tier == "quick" else 200, pwd], timeout=1200)
+        if rc != 0:
+            broken = broken or ("vh raft pool failed: " + pout[-1500:])
+        else:
+            pmeta = json.load(open(os.path.join(pwd, "pool_meta.json")))
+            pv, pb = eval_cases(pwd, "cases_pool_*.v", pmeta, pid, "pool")
+            out.extend(pv[:3])
+            broken = broken or pb
+            for fnd in pmeta.get("findings") or []:
+                prop, sig, detail = (fnd.split("|", 2) + ["", ""])[:3]
+                out.append({"signature": "pool-oracle " + sig, "detail": detail, "found": True,
+                            "replay": {"property": pid, "kind": "reply pairing on the real connPool", "oracle": sig, "what": detail, "seed": seed}})
+            cov["pool_sequences"] = pmeta["cases"]
+            cov["rule"] += ("; connection pool: %d scripted request sequences through the real connPool.doRPC against a peer that answers in time, "
+                            "late or never, compared with Ident/Pool.v (pool_replies_paired)" % pmeta["cases"])
     cov.update(abs_cov)
     if abs_cov:
         cov["rule"] += ("; abstract tie: %d whole-cluster histories (%d events) of the real nodes were checked by "
@@ -337,7 +355,7 @@ reg_node("C01", "Theorems: election safety for every reachable state of the abst
          "(on_vote_request, start_election, on_vote_result, restart) are compared event by event with the real handlers; monitor: two nodes "
          "leader in one term on the simulated cluster.",
          ["static voter set in the abstract theorem; under membership changes safety additionally needs overlapping majorities (C08)"],
-         extra_props=["AbsTie.v"])
+         extra_props=["AbsTie.v", "C20.v"])
 
 
 # ------------------------------------------------------------------ C14
